@@ -90,24 +90,29 @@ _T45_K = ('<mujoco>' + _OPT45 + '<worldbody><geom name="farplane" type="plane" s
           '<body name="b1" pos="0 0 .5"><joint name="h" type="hinge" axis="0 1 0" stiffness="%(k1)s" springref="0.2" damping="%(d1)s" armature="0.05" '
           'range="-20 20" limited="true"/><geom type="capsule" size=".04 .15" pos="0 0 -.15" contype="0" conaffinity="0"/>'
           '<body name="b2" pos="0 0 -.3"><joint name="b" type="ball" damping="%(d2)s" stiffness="%(k2)s"/>'
-          '<geom type="sphere" size=".06" pos=".1 0 -.1" contype="2" conaffinity="0"/></body></body></worldbody>'
+          '<geom type="sphere" size=".06" pos=".1 0 -.1" contype="2" conaffinity="0"/>'
+          '<body name="marker" pos=".05 .02 -.1"><site name="mk"/></body></body></body></worldbody>'
           '<equality><connect body1="b2" anchor="0.1 0.05 -0.2"/></equality>'
           '<actuator><general name="a0" joint="h" dyntype="filter" dynprm="0.08" gainprm="%(g)s"/></actuator></mujoco>')
 _T45_S = ('<mujoco>' + _OPT45 + '<worldbody><site name="w" pos="0.4 0.1 0.6"/>'
           '<body name="b1" pos="0 0 .5"><joint name="b" type="ball" damping="%(d1)s"/><geom type="capsule" size=".04 .15" pos="0 0 -.15" contype="0" conaffinity="0"/>'
           '<site name="s1" pos="0.05 0.02 -0.2"/>'
           '<body name="b2" pos="0 0 -.3"><joint name="sl" type="slide" axis="1 0 1" stiffness="%(k1)s" springref="0.1" damping="%(d2)s"/>'
-          '<geom type="box" size=".05 .06 .07" contype="0" conaffinity="0"/><site name="s2" pos="0.02 0.03 0"/></body></body></worldbody>'
+          '<geom type="box" size=".05 .06 .07" contype="0" conaffinity="0"/><site name="s2" pos="0.02 0.03 0"/>'
+          '<body name="marker" pos=".05 .02 -.1"><site name="mk"/></body></body></body></worldbody>'
           '<tendon><fixed name="t0" stiffness="%(k2)s" damping="0.3"><joint joint="sl" coef="1.3"/></fixed>'
           '<spatial name="t1" stiffness="4" damping="0.2"><site site="w"/><site site="s1"/><site site="s2"/></spatial></tendon>'
-          '<actuator><intvelocity name="a0" joint="sl" kp="%(g)s" actrange="-0.5 0.5"/><position name="a1" tendon="t1" kp="6" kv="0.5"/></actuator></mujoco>')
+          '<actuator><intvelocity name="a0" joint="sl" kp="%(g)s" actrange="-0.5 0.5"/><position name="a1" tendon="t1" kp="6" kv="0.5"/>'
+          '<general name="a2" joint="sl" gaintype="affine" gainprm="0 0 -%(kv)s"/></actuator></mujoco>')
 
 
 @st.composite
 def pinned45(draw, kind):
   n = lambda lo, hi, d=2: mg.fmt(draw(mg.num(lo, hi, d)))
-  integ = draw(st.sampled_from(['Euler', 'implicitfast']))
-  p = dict(dt=n(0.002, 0.006, 3), int=integ, it=('1' if kind == 'K' else '60'), k1=n(1, 15, 1), k2=n(1, 10, 1), d1=n(0.1, 1.0), d2=n(0.1, 1.0),
+  # S is always implicitfast: its ctrl-scaled velocity gain (a2) and the joint/tendon damping enter qDeriv of the implicit solve;
+  # both templates carry a massless leaf body ("marker": site only) below the joints (reverse-mode 0/0 hazards in com_pos)
+  integ = 'implicitfast' if kind == 'S' else draw(st.sampled_from(['Euler', 'implicitfast']))
+  p = dict(kv=n(1, 4, 1), dt=n(0.002, 0.006, 3), int=integ, it=('1' if kind == 'K' else '60'), k1=n(1, 15, 1), k2=n(1, 10, 1), d1=n(0.1, 1.0), d2=n(0.1, 1.0),
            g=n(1, 8, 1))
   xml = (_T45_K if kind == 'K' else _T45_S) % p
   info = dict(option=dict(integrator=integ, cone='pyramidal', solver='Newton', flags={}), family=kind, pinned=True,
